@@ -126,7 +126,7 @@ Proof.
   - rewrite Hign. exact A.
   - destruct sd; simpl in *; exact B.
   - intros sd0. destruct (Bool.bool_dec sd0 sd) as [Heq|Hne].
-    + subst sd0. destruct (C sd) as [c1 c2 c3 c4]. constructor; rewrite ?Hsame; cbn [w_chg s_otype s_force s_oid s_chg s_path s_hash s_spath s_shash tchg N.eqb negb]; auto.
+    + subst sd0. destruct (C sd) as [c1 c2 c3 c5 c4]. constructor; rewrite ?Hsame, ?Hign; cbn [w_chg s_otype s_force s_oid s_chg s_path s_hash s_spath s_shash s_ex tchg N.eqb negb]; auto.
       * intros Hn. destruct (c3 Hn) as (_ & X). auto.
       * intros o Ho'. destruct (c4 o Ho') as (k & ob & Hk & Hob & Hk2 & F). subst o.
         exists k, ob. split; [reflexivity|]. split; [rewrite Hobj; exact Hob|]. split; [exact Hk2|].
@@ -177,7 +177,7 @@ Proof.
         -- intros Hd Hcs. destruct (f9 Hd Hcs) as (P1 & P2 & P3 & P4 & P5 & P6 & (k' & ob' & R1 & R2 & R3 & R4)).
            repeat (split; [assumption|]). exists k', ob'. rewrite Hobj. auto.
     + assert (sd0 = negb sd) by (destruct sd0, sd; try reflexivity; contradiction). subst sd0.
-      destruct (C (negb sd)) as [c1 c2 c3 c4]. constructor; rewrite ?Hoth; auto.
+      destruct (C (negb sd)) as [c1 c2 c3 c5 c4]. constructor; rewrite ?Hoth, ?Hign; auto.
       intros o Ho'. destruct (c4 o Ho') as (k1 & ob1 & Hk1 & Hob1 & Hk2 & F). subst o.
       exists k1, ob1. split; [reflexivity|]. split; [rewrite Hobj; exact Hob1|]. split; [exact Hk2|].
       assert (Hfl: flagP evl en (negb sd) k1 -> flagP evl en' (negb sd) k1).
@@ -198,4 +198,70 @@ Proof.
       * exact f10.
       * intros Hd Hcs. destruct (f9 Hd Hcs) as (P1 & P2 & P3 & P4 & P5 & P6 & (k' & ob' & R1 & R2 & R3 & R4)).
         repeat (split; [assumption|]). exists k', ob'. rewrite Hobj. auto.
+Qed.
+
+(* ------------------------------------------------------------------ the invariant across a clearing step *)
+Lemma flagged_clr en sd : flagged (clr en sd) = other_flagged en sd.
+Proof. unfold flagged, clr, other_flagged. destruct en as [l r i p], sd; simpl; [rewrite orb_false_r|]; reflexivity. Qed.
+Lemma maxchg_clr en sd : maxchg (clr en sd) <= maxchg en.
+Proof. unfold maxchg, chgv, clr. destruct en as [l r i p], sd; simpl; lia. Qed.
+Lemma oid_clr en sd sd0 : s_oid (gs (clr en sd) sd0) = s_oid (gs en sd0).
+Proof. unfold clr. destruct en as [l r i p], sd, sd0; reflexivity. Qed.
+
+Definition ReadyAll (evl : evlist) (w : world) (e : nat) (en : StateModel.entry) : Prop :=
+  forall sd0 k ob, s_oid (gs en sd0) = Some (ostr_k k) -> obj_at w sd0 k = Some ob -> pd evl sd0 k = true \/ freshP (gs en sd0) ob.
+
+Lemma inv_clear evl g w w' e en en' sd :
+  InvP evl g w -> (2 <= e)%nat -> nth_error (ents (w_st w)) e = Some en -> ReadyAll evl w e en ->
+  (forall k ob cs, s_oid (gs en sd) = Some (ostr_k k) -> obj_at w sd k = Some ob -> pd evl sd k = false ->
+     freshP (gs en sd) ob -> is_discarded (e_ign en) = false -> g_get k (g_of g sd) = Some cs ->
+     s_oid (gs en (negb sd)) <> None /\ ProvModel.o_exists ob = true /\ s_hash (gs en sd) = s_shash (gs en sd)) ->
+  w_cfg w' = w_cfg w -> (forall sd0, prov_of w' sd0 = prov_of w sd0) ->
+  nth_error (ents (w_st w')) e = Some en' -> same_but_prio (clr en sd) en' ->
+  length (ents (w_st w')) = length (ents (w_st w)) ->
+  (forall x xn, x <> e -> nth_error (ents (w_st w)) x = Some xn ->
+     exists xn', nth_error (ents (w_st w')) x = Some xn' /\ same_but_prio xn xn') ->
+  (forall x, x <> e -> set_mem x (cset (w_st w')) = set_mem x (cset (w_st w))) ->
+  set_mem e (cset (w_st w')) = other_flagged en sd ->
+  now (w_st w) <= now (w_st w') -> lastch (w_st w') = lastch (w_st w) -> tape (w_st w') = [] ->
+  (IdxJ (w_st w) -> IdxJ (w_st w')) ->
+  (forall x sd0, x <> e -> getx w' x sd0 = getx w x sd0) ->
+  (forall sd0, x_lg (getx w' e sd0) = x_lg (getx w e sd0)) ->
+  InvP evl g w'.
+Proof.
+  intros I He Hn Hready Hjust Hcfg Hprov Hen' Ssbp Hlen Hoth Hcs Hmem Hnow Hlast Htape HJ Hx Hxe.
+  assert (Hobj: forall sd0 k0, obj_at w' sd0 k0 = obj_at w sd0 k0) by (intros; unfold obj_at; rewrite Hprov; reflexivity).
+  pose proof (i_ents _ _ _ I e en He Hn) as EO.
+  destruct (i_clke _ _ _ I e en Hn) as (Hmaxo & Hlgo).
+  assert (Hoid': forall sd0, s_oid (gs en' sd0) = s_oid (gs en sd0)) by (intros sd0; rewrite <- (sbp_gs _ _ sd0 Ssbp); apply oid_clr).
+  apply (inv_master evl evl g g w w' e en' I).
+  - exact Hcfg.
+  - intros sd0. rewrite Hprov. split; [apply (i_pwf _ _ _ I)|]. split; [apply (ShapeOk_ext w w' sd0 (Hobj sd0) (i_shape _ _ _ I sd0))|].
+    apply (LogOk_ext evl evl w w' sd0 (Hobj sd0)); [auto|apply (i_log _ _ _ I)].
+  - exact He.
+  - exact Hen'.
+  - rewrite Hlen. apply Nat.le_refl.
+  - intros x Hx0 Hne. apply nth_error_None. rewrite Hlen. exact Hx0.
+  - exact Hoth.
+  - exact Hcs.
+  - intros Hfl. rewrite Hmem. rewrite <- (sbp_flagged _ _ Ssbp), flagged_clr in Hfl. exact Hfl.
+  - exact Hnow.
+  - rewrite Hlast. pose proof (i_clk _ _ _ I). lia.
+  - rewrite <- (sbp_maxchg _ _ Ssbp). pose proof (maxchg_clr en sd). lia.
+  - intros sd0. rewrite (Hxe sd0). specialize (Hlgo sd0). lia.
+  - exact Htape.
+  - apply HJ. apply (i_idx _ _ _ I).
+  - exact Hx.
+  - intros x xn Hne Hx2 Hxn sd0 k0 Hk0. split; [apply Hobj|]. split; [auto|reflexivity].
+  - intros sd0 k0 Hk0 Hlt. rewrite Hprov in Hlt. destruct (i_cov _ _ _ I sd0 k0 Hk0 Hlt) as [(x & xn & Hxn & Hox)|Hp]; [left|right; exact Hp].
+    destruct (Nat.eq_dec x e) as [Heq|Hne].
+    + subst x. exists e, en'. split; [exact Hen'|]. assert (xn = en) by congruence. subst xn. rewrite Hoid'. exact Hox.
+    + destruct (Hoth x xn Hne Hxn) as (xn' & Hxn' & S). exists x, xn'. split; [exact Hxn'|]. rewrite <- (sbp_gs _ _ sd0 S). exact Hox.
+  - intros sd0 k0 Hk0 Hlt Hg. rewrite Hprov in Hlt. destruct (i_cove _ _ _ I sd0 k0 Hk0 Hlt Hg) as (x & xn & Hxn & Hox).
+    destruct (Nat.eq_dec x e) as [Heq|Hne].
+    + subst x. exists e, en'. split; [exact Hen'|]. assert (xn = en) by congruence. subst xn. rewrite Hoid'. exact Hox.
+    + destruct (Hoth x xn Hne Hxn) as (xn' & Hxn' & S). exists x, xn'. split; [exact Hxn'|]. rewrite <- (sbp_gs _ _ sd0 S). exact Hox.
+  - intros sd0 k0 cs Hg. rewrite Hobj. apply (i_ghost _ _ _ I sd0 k0 cs Hg).
+  - apply (EntOk_sbp _ _ _ _ (clr en sd) en' Ssbp).
+    apply (EntOk_clear evl g w w' e en sd EO Hobj); [exact Hxe|exact Hready|exact Hjust].
 Qed.
